@@ -72,6 +72,18 @@ func (m *C13) AfterMsg(w *eng.World, st *eng.MsgStep) {
 		m.noteAttempt("createBatch", p.ClassKey, msg.OriginTx)
 		if st.Res.OK {
 			m.issue(w, "createBatch", p.ClassKey, msg.OriginTx)
+			// effect: a batch created with a contract is the one batch of that contract in its class
+			if msg.OriginTx != nil && msg.OriginTx.Contract != "" {
+				k := ckey(p.ClassKey, msg.OriginTx.Contract)
+				if other, dup := m.contracts[k]; dup {
+					w.Violation("C13", "contract-bound-twice", "CreateBatch accepted for contract %s which is already bound to batch key %d in class key %d", msg.OriginTx.Contract, other, p.ClassKey)
+				}
+				if resp, _ := st.Res.RespMsg.(*basetypes.MsgCreateBatchResponse); resp != nil {
+					if b := post.BatchByDenom(resp.BatchDenom); b != nil {
+						m.contracts[k] = b.Key
+					}
+				}
+			}
 		}
 	case *basetypes.MsgMintBatchCredits:
 		b := pre.BatchByDenom(msg.BatchDenom)
@@ -129,6 +141,8 @@ func (m *C13) AfterMsg(w *eng.World, st *eng.MsgStep) {
 			if pre.BatchByKey(b.Key) != nil {
 				w.Violation("C13", "unbound-contract-minted-existing", "receipt for unbound contract %s minted into existing batch %s", msg.OriginTx.Contract, b.Denom)
 			}
+			// effect: the first receipt binds the contract to the batch it created
+			m.contracts[ckey(c.Key, msg.OriginTx.Contract)] = b.Key
 		}
 		// the amount went to the recipient of that batch and nowhere else
 		rc, _ := sdk.AccAddressFromBech32(msg.Batch.Recipient)
@@ -254,12 +268,17 @@ func (m *C13) checkTables(w *eng.World, st *eng.MsgStep) {
 		}
 		now[k] = c.BatchKey
 	}
+	// the stored bindings are exactly those the accepted messages (and genesis) made
 	for k, b := range m.contracts {
 		if nb, ok := now[k]; !ok || nb != b {
-			w.Violation("C13", "contract-binding-changed", "binding %q -> batch %d changed or disappeared (now %v)", k, b, now[k])
+			w.Violation("C13", "contract-binding-changed", "binding %q -> batch %d is missing or different in state (stored: %v, present %v)", k, b, nb, ok)
 		}
 	}
-	m.contracts = now
+	for k, nb := range now {
+		if _, ok := m.contracts[k]; !ok {
+			w.Violation("C13", "contract-binding-unexplained", "state binds %q -> batch %d but no accepted message made that binding", k, nb)
+		}
+	}
 	// every stored origin-tx row is accounted for by an accepted issuing message and vice versa
 	stored := map[string]bool{}
 	for _, o := range st.Post.OriginTxs {
